@@ -394,6 +394,18 @@ def _own_writes(ctx: Ctx, f: Func, cls: Class, _seen: Optional[Set[int]] = None)
                     if n.func.attr in c.methods:
                         out |= _own_writes(ctx, c.methods[n.func.attr], cls, _seen)
                         break
+    # bound methods of the object taken as values (a table of readers, `reader = self._line__host if ... else ...`) and
+    # called through a local: what they write is written by this function
+    local_names = {x.id for x in own_nodes(f.node) if isinstance(x, ast.Name) and isinstance(x.ctx, ast.Store)}
+    if any(isinstance(x, ast.Call) and ((isinstance(x.func, ast.Name) and x.func.id in local_names) or isinstance(x.func, (ast.Subscript, ast.IfExp))) for x in own_nodes(f.node)):
+        for n in own_nodes(f.node):
+            if isinstance(n, ast.Attribute) and isinstance(n.ctx, ast.Load) and isinstance(n.value, ast.Name) and n.value.id == self_name:
+                par = getattr(n, "_parent", None)
+                if isinstance(par, ast.Call) and par.func is n:
+                    continue
+                m = cls.lookup_method(n.attr)
+                if m is not None:
+                    out |= _own_writes(ctx, m, cls, _seen)
     return out
 
 
